@@ -3,7 +3,7 @@ import core
 
 RULE = ("case = one configuration (T in {2,3,4,8,16} threads) x (delay mode: none / sleeps injected inside the library's own mprotect, "
         "munmap and __clear_cache calls / mixed with yields); every thread loops over a seeded script of {injector + thread-specific fake "
-        "on ONE shared function, injector without install, preventer} x {leave by drop, leave by panic}. Monitors: in-critical-section "
+        "on ONE shared function, injector without install, preventer; one injector in four is obtained through the Default impl instead of the constructor} x {leave by drop, leave by panic}. Monitors: in-critical-section "
         "counter (must read 0 right after a constructor returns), owner cell re-read through the scope, first call right after acquiring "
         "must be original, later calls must be the holder's own fake (injector) or original (preventer), a plain non-atomic cell "
         "incremented only under the guard must equal the number of acquisitions, bounded hand-over (no guard alive + a waiter blocked for "
